@@ -354,14 +354,17 @@ Proof. induction l as [|s0 l IH]; intros st Zb E o ND Hin Eb; [destruct Hin|]. c
     + rewrite Eb. left. reflexivity.
     + destruct (sbr s1); [apply IHl; exact Hin | right; apply IHl; exact Hin | apply IHl; exact Hin]. Qed.
 
-(* THE series theorem *)
-Theorem chain_sim (a : Z) (l1 l2 : list step) (IN IV IR : Z -> bool) :
+(* THE series theorem.  Observation: one and the same current flows through
+   every branch of the first chain and every branch of the second chain. *)
+Definition same_current (a : Z) (l1 l2 : list step) : obs_t K := fun v ib v' ib' =>
+  exists i, Forall (fun c => c = i) (scurs a l1 v ib) /\ Forall (fun c => c = i) (scurs a l2 v' ib').
+Theorem chain_sim_o (a : Z) (l1 l2 : list step) (IN IV IR : Z -> bool) :
   chain_wf a l1 -> chain_wf a l2 -> lastn a l1 = lastn a l2 ->
   zsum l1 = zsum l2 -> esum l1 = esum l2 ->
   (forall n, IN n = true <-> In n (interior l1 ++ interior l2)) ->
   (forall o, IR o = true <-> In o (owns l1 ++ owns l2)) ->
   kept_dir IV l1 l2 ->
-  port_sim IN IV IR (chain_sems a l1) (chain_sems a l2).
+  port_sim_o (same_current a l1 l2) IN IV IR (chain_sems a l1) (chain_sems a l2).
 Proof.
   intros [ND1 [Ha1 [Hl1 [Hp1 [NO1 [Ho1 T1]]]]]] [ND2 [Ha2 [Hl2 [Hp2 [NO2 [Ho2 T2]]]]]] Elast Ez Ee HIN HIR HK v ib [Ik Ic].
   (* the common current of chain 1 *)
@@ -375,7 +378,7 @@ Proof.
   assert (Dok : drops_ok a l2 i v').
   { apply Ad. rewrite <- Elast. rewrite tdrop_lin, <- Ez, <- Ee, <- tdrop_lin, <- D1. ring. }
   destruct (built_ok l2 i a v' ib NO2 T2 Dok) as [C2 R2]. fold ib' in C2, R2.
-  exists v', ib'. split; [|split; [|split; [split|split]]].
+  exists v', ib'. split; [|split; [|split; [split|split; [|split]]]]; [| | | | | |exists i; split; assumption].
   - intros n Hn. symmetry. apply Av. intros Hx. assert (IN n = true) by (apply HIN; apply in_or_app; right; exact Hx). congruence.
   - intros o Ho. unfold ib'. destruct (in_dec Z.eq_dec o (owns l2)) as [Hin|Hnin]; [|symmetry; apply assign_ib_out; exact Hnin].
     assert (Hst : exists st2 Zb E, In st2 l2 /\ sbr st2 = BZ Zb E o).
@@ -398,6 +401,14 @@ Proof.
     + intros Hx. assert (IR q = true) by (apply HIR; apply in_or_app; right; exact Hx). congruence.
     + intros Hx. assert (IR q = true) by (apply HIR; apply in_or_app; left; exact Hx). congruence.
 Qed.
+Theorem chain_sim (a : Z) (l1 l2 : list step) (IN IV IR : Z -> bool) :
+  chain_wf a l1 -> chain_wf a l2 -> lastn a l1 = lastn a l2 ->
+  zsum l1 = zsum l2 -> esum l1 = esum l2 ->
+  (forall n, IN n = true <-> In n (interior l1 ++ interior l2)) ->
+  (forall o, IR o = true <-> In o (owns l1 ++ owns l2)) ->
+  kept_dir IV l1 l2 ->
+  port_sim IN IV IR (chain_sems a l1) (chain_sems a l2).
+Proof. intros. eapply port_sim_o_weaken. apply chain_sim_o; assumption. Qed.
 
 (* ======================= parallel groups ================================ *)
 (* (fwd, branch): the branch's + terminal is at a (true) or at b (false) *)
@@ -544,10 +555,11 @@ Arguments bsem {K}. Arguments cur {K}. Arguments resid {K}.
 Arguments Step {K}. Arguments sfwd {K}. Arguments sbr {K}. Arguments snext {K}. Arguments step K : clear implicits.
 Arguments chain_sems {K}. Arguments lastn {K}. Arguments interior {K}. Arguments owns {K}.
 Arguments thev {K}. Arguments sz {K}. Arguments se {K}. Arguments zsum {K}. Arguments esum {K}. Arguments sgn {K}.
-Arguments chain_wf {K}. Arguments kept_dir {K}. Arguments ssem {K}.
+Arguments chain_wf {K}. Arguments kept_dir {K}. Arguments ssem {K}. Arguments same_current {K}. Arguments scurs {K}. Arguments scur {K}.
 Arguments pstep K : clear implicits. Arguments psem {K}. Arguments psems {K}. Arguments norton {K}. Arguments py {K}. Arguments pj {K}.
 Arguments Ysum {K}. Arguments Jsum {K}. Arguments zwf {K}. Arguments pz {K}. Arguments pe {K}.
 Arguments pzsum {K}. Arguments pesum {K}. Arguments powns {K}. Arguments upd {K}.
+Print Assumptions chain_sim_o.
 Print Assumptions chain_sim.
 Print Assumptions par_norton_equiv.
 Print Assumptions par_bz_sim.
